@@ -50,3 +50,12 @@ def RetargetTwice(**f):
 def NameCollision(**f):
     """F10 (PlanGraph.tla taint "name-collision")."""
     return f.get("kind") in ("history", "ship") and "name-collision" in (f.get("taint") or [])
+
+
+def ZeroSizeMixedChunks(**f):
+    """F31: element-wise combination of ZERO-SIZE arrays that are chunked differently along a non-empty axis.  unify_chunks asks
+    for a rechunk, rechunk skips zero-size arrays ("no data to move") and returns the operand with its old chunks, so the
+    blocks do not line up and the task fails with a broadcasting ValueError.  Matches only the probe family of C17 built from
+    exactly that shape of program, failing after acceptance."""
+    return bool(f.get("kind") == "api-program" and f.get("family") == "awkward-zero-mixed"
+                and "FailedAfterAcceptance" in str(f.get("clause")))
